@@ -76,6 +76,42 @@ Section C01.
   Proof. exact (user_bound_dual_sign P sc atol tol xt yt W R). Qed.
 End C01.
 
+(* 7. End to end, in one statement: for an ARBITRARY user problem P (arbitrary callbacks), arbitrary integer scaling
+      weights, every configuration, clock, penalty policy and every step oracle (= every Newton variant, step solver,
+      linear solver and step-size controller, including ones that fail) whose answers, like the start, have the right
+      shape and lie in the internal box (C05): if solve() returns Optimal, then what Transformation.restore_sol hands
+      to the caller satisfies the user's bounds exactly, the user's rows to opt_tol * 2^-w_i, and stationarity
+      grad f + J^T y + d = 0 to opt_tol * 2^(v_j - o), component by component.  (Multiplier and bound-multiplier signs:
+      items 5 and 6, under the same two hypotheses.) *)
+Theorem C01_end_to_end : forall (P : problem) (sc : scaling) atol otol itol fuel c orc clk z0 fin,
+  let T := cons_problem (scaled_problem sc P) in
+  let Good := fun z : LIt => wfu P sc (fst z) (snd z) /\ in_box (var_lb T) (var_ub T) (fst z) = true in
+  (forall i x r d b nx l a k, orc i x r d b = Ans LIt nx l a k -> Good nx) -> Good z0 ->
+  solve LIt (l_total T atol) (l_linf T atol otol itol) (l_obj T) (l_feas T otol) (l_pdata T) (fun _ _ => 0)
+        fuel c orc clk z0 = Done LIt Optimal fin ->
+  let xt := fst (cur LIt fin) in
+  let yt := snd (cur LIt fin) in
+  exists x y d, restore_sol (Some sc) P xt yt (bounds_dual T atol xt yt) = (x, y, d)
+    /\ in_box (var_lb P) (var_ub P) x = true
+    /\ (forall j, (j < nvars P)%nat ->
+          qabs (nth j (lag_grad P x y) 0 + nth j d 0) <= c_opt_tol c * p2 (nth j (vw sc) 0%Z - ow sc))
+    /\ (forall i, (i < ncons P)%nat -> length (p_cons P x) = ncons P ->
+          let ci := nth i (p_cons P x) 0 in
+          let t := c_opt_tol c * p2 (- nth i (cw sc) 0%Z) in
+          match nth i (cons_lb P) None with Some a => a - t <= ci | None => True end
+          /\ match nth i (cons_ub P) None with Some b => ci <= b + t | None => True end).
+Proof.
+  intros P sc atol otol itol fuel c orc clk z0 fin T Good Horc H0 HS xt yt.
+  pose proof (C01_optimal_only_if_total_res T atol otol itol fuel c orc clk z0 fin HS) as R.
+  destruct (solve_keeps_box LIt _ _ _ _ _ _ Good fuel c orc clk z0 Optimal fin Horc H0 HS) as [[W B] _].
+  fold xt yt in R, W, B.
+  eexists _, _, _. split; [apply (restore_is P sc atol xt yt)|].
+  split; [exact (user_bounds_exact P sc xt yt W B)|].
+  split.
+  - intros j Hj. exact (user_stationarity P sc atol (c_opt_tol c) xt yt W R j Hj).
+  - intros i Hi HL. exact (user_feasibility P sc atol (c_opt_tol c) xt yt W R i B Hi HL).
+Qed.
+
 (* the same without scaling: the slack layer alone (Pq = the user's problem) *)
 Theorem C01_unscaled_stationarity : forall Pq atol xt yt, wfs Pq xt yt -> forall tol j,
   stat_res (cons_problem Pq) atol xt yt <= tol -> (j < nvars Pq)%nat ->
@@ -127,3 +163,4 @@ Print Assumptions C01_bound_dual_sign.
 Print Assumptions C01_unscaled_stationarity.
 Print Assumptions C01_unscaled_multiplier.
 Print Assumptions C01_unscaled_rows.
+Print Assumptions C01_end_to_end.
